@@ -661,16 +661,17 @@ fn attr_dbg(d: &Dbg) -> Result<Sexp, String> {
 	Ok(Sexp::list(vec![dtext(d.field("name")?)?, Sexp::bytes(&bytes)]))
 }
 
+/// the fields of `RecordComponent` are public since /repo commit 8214c43: read directly (the `Debug` detour printed every NaN
+/// as `NaN` and lost the payload of float constants in component annotations)
 fn record_component(r: &duke::tree::record::RecordComponent) -> Result<Sexp, String> {
-	let d = dbg::parse(&format!("{r:?}"))?;
 	Ok(Sexp::list(vec![
 		js(&r.name), js(&r.descriptor),
-		dopt(d.field("signature")?, dtext)?,
-		dlist(d.field("runtime_visible_annotations")?, annotation_dbg)?,
-		dlist(d.field("runtime_invisible_annotations")?, annotation_dbg)?,
-		dlist(d.field("runtime_visible_type_annotations")?, type_anno_field_dbg)?,
-		dlist(d.field("runtime_invisible_type_annotations")?, type_anno_field_dbg)?,
-		dlist(d.field("attributes")?, attr_dbg)?,
+		opt(&r.signature, |s| js(s)),
+		lst(&r.runtime_visible_annotations, annotation),
+		lst(&r.runtime_invisible_annotations, annotation),
+		type_annos(&r.runtime_visible_type_annotations, |t| Ok(target_field(t)))?,
+		type_annos(&r.runtime_invisible_type_annotations, |t| Ok(target_field(t)))?,
+		lst(&r.attributes, attr),
 	]))
 }
 
